@@ -1,0 +1,80 @@
+//! Verification doors and hooks. Compiled only with `--cfg trusttunnel_verif`.
+//!
+//! *Doors* are thin public wrappers around crate-private items so that an external
+//! harness can drive the real implementation. *Hooks* are `emit` calls placed at
+//! linearization points of the implementation; they are no-ops unless a recorder
+//! is installed by the harness.
+
+use std::sync::atomic::{AtomicBool, AtomicU64, Ordering};
+use std::sync::Mutex;
+
+pub mod codec;
+pub mod demux;
+pub mod hello;
+pub mod http1;
+pub mod icmp;
+pub mod metrics;
+pub mod net;
+pub mod pipe;
+pub mod rules;
+pub mod shutdown;
+pub mod socks;
+pub mod tunnel;
+pub mod udp;
+
+static RECORDING: AtomicBool = AtomicBool::new(false);
+static SEQ: AtomicU64 = AtomicU64::new(0);
+static EVENTS: Mutex<Vec<String>> = Mutex::new(Vec::new());
+
+/// Start recording events (clears the buffer)
+pub fn start_recording() {
+    let mut g = EVENTS.lock().unwrap_or_else(|e| e.into_inner());
+    g.clear();
+    SEQ.store(0, Ordering::SeqCst);
+    RECORDING.store(true, Ordering::SeqCst);
+}
+
+/// Stop recording and return the recorded ndjson lines
+pub fn stop_recording() -> Vec<String> {
+    RECORDING.store(false, Ordering::SeqCst);
+    let mut g = EVENTS.lock().unwrap_or_else(|e| e.into_inner());
+    std::mem::take(&mut *g)
+}
+
+/// Take the lines recorded so far without stopping
+pub fn drain_events() -> Vec<String> {
+    let mut g = EVENTS.lock().unwrap_or_else(|e| e.into_inner());
+    std::mem::take(&mut *g)
+}
+
+#[inline]
+pub fn is_recording() -> bool {
+    RECORDING.load(Ordering::Relaxed)
+}
+
+/// Record one event. `fields` is the inside of a JSON object (without braces),
+/// e.g. `"dir":"out","n":3`. The global sequence number is taken under the
+/// buffer lock, so the order of lines is the order of `emit` calls.
+pub fn emit(ev: &str, fields: std::fmt::Arguments<'_>) {
+    if !is_recording() {
+        return;
+    }
+    let mut g = EVENTS.lock().unwrap_or_else(|e| e.into_inner());
+    let seq = SEQ.fetch_add(1, Ordering::SeqCst);
+    let f = fields.to_string();
+    if f.is_empty() {
+        g.push(format!("{{\"seq\":{},\"ev\":\"{}\"}}", seq, ev));
+    } else {
+        g.push(format!("{{\"seq\":{},\"ev\":\"{}\",{}}}", seq, ev, f));
+    }
+}
+
+#[macro_export]
+macro_rules! verif_emit {
+    ($ev:expr) => {
+        $crate::verif::emit($ev, format_args!(""))
+    };
+    ($ev:expr, $($arg:tt)+) => {
+        $crate::verif::emit($ev, format_args!($($arg)+))
+    };
+}
